@@ -54,7 +54,7 @@ theorem recv_to_asg (a c : Ty) (hc : c.plainR = true) (h : asgRecv cfg sfh a c =
 theorem tr_leaf (hl : ∀ s, (cfg.lower s).length = s.length) (a b c : Ty) (hc : c.plainR = true) (wb : Ty.WF cfg b)
     (hleaf : match a with
       | .undef | .dflt | .numeric | .str | .bin | .int _ | .float _ _ | .bool _ | .tspan _ | .tstamp _ | .strSz _ | .strVal _ | .enum _ _
-      | .pattern _ | .regexp _ | .object _ => True
+      | .pattern _ | .regexp _ | .runtime _ _ _ | .object _ => True
       | _ => False)
     (h1 : asgRecv cfg sfh a b = true) (h2 : asgRecv cfg sfh b c = true) : asgRecv cfg sfh a c = true := by
   cases a <;> simp only [] at hleaf <;> (first | contradiction | skip)
@@ -238,6 +238,14 @@ theorem tr_leaf (hl : ∀ s, (cfg.lower s).length = s.length) (a b c : Ty) (hc :
     rcases h1 with h1 | h1
     · left; exact h1
     · subst h1; exact h2
+  · -- runtime (the rule is `rtAcc`, transitive by `rtAcc_trans`)
+    rename_i rt nm pt
+    cases b <;> (try (rw [recv_runtime_other cfg sfh rt nm pt _ trivial] at h1; cases h1))
+    rename_i rt' nm' pt'
+    cases c <;> (try (rw [recv_runtime_other cfg sfh rt' nm' pt' _ trivial] at h2; cases h2))
+    rename_i rt'' nm'' pt''
+    rw [recv_runtime_eq] at h1 h2 ⊢
+    exact rtAcc_trans h1 h2
   · -- object
     rename_i p
     unfold asgRecv at h1; cases b <;> simp only [] at h1 <;> (first | contradiction | skip)
@@ -256,13 +264,13 @@ theorem tr_leaf (hl : ∀ s, (cfg.lower s).length = s.length) (a b c : Ty) (hc :
 
 theorem tf_leaf (t : Ty) (h : match t with
     | .undef | .dflt | .numeric | .str | .bin | .int _ | .float _ _ | .bool _ | .tspan _ | .tstamp _ | .strSz _ | .strVal _ | .enum _ _
-    | .pattern _ | .regexp _ | .object _ | .scalar | .scalarData | .any | .coll _ => True
+    | .pattern _ | .regexp _ | .runtime _ _ _ | .object _ | .scalar | .scalarData | .any | .coll _ => True
     | _ => False) : t.TF := by
   cases t <;> simp only [] at h <;> (first | contradiction | (unfold Ty.TF; trivial))
 
 theorem wf_leaf (t : Ty) (h : match t with
     | .undef | .dflt | .numeric | .str | .bin | .int _ | .float _ _ | .bool _ | .tspan _ | .tstamp _ | .strSz _ | .strVal _
-    | .pattern _ | .regexp _ | .object _ | .scalar | .scalarData | .any | .coll _ => True
+    | .pattern _ | .regexp _ | .runtime _ _ _ | .object _ | .scalar | .scalarData | .any | .coll _ => True
     | _ => False) : Ty.WF cfg t := by
   cases t <;> simp only [] at h <;> (first | contradiction | (unfold Ty.WF; trivial))
 
